@@ -16,7 +16,7 @@ def check(tier, seed):
     n = 4000 if tier == 'thorough' else 160
     sign_lines, meta = [], []
     for s in fam.SETS:
-        xis = fam.seeds(rng, 6 if tier == 'quick' else 40) + fam.boundary_seeds(s, 2)   # + seeds whose t needs the final reduction
+        xis = fam.seeds(rng, 6 if tier == 'quick' else 40) + fam.boundary_seeds(s, 2) + fam.zero_sum_seeds(s)[:1]   # + seeds whose t needs the final reduction / has a coefficient exactly 0
         msgs = fam.messages(rng, 12)
         ctxs = fam.contexts(rng, 8)
         rr = fam.rnds(rng, 6)
